@@ -691,6 +691,58 @@ func c15Preempt(w *ndWriter) (int, int) {
 			}}
 		})
 	}
+	// Cor: a YieldFrom that arrives while the completing target is answering the requests left in its mailbox (the closer is parked inside
+	// that drain, at the hook points of the stranded requester): the late caller gets the zero value, nothing is sent on a closed channel
+	run("Cor", "YieldFrom(target draining its mailbox)", []string{}, []string{"cor.safe.checked", "cor.safe.locked"}, func() *c15Inst {
+		finish := make(chan struct{})
+		var target *fpgo.CorDef[int]
+		target = fpgo.CorNewGenerics[int](func() { <-finish })
+		target.Start()
+		firstDone := make(chan struct{})
+		var first *fpgo.CorDef[int]
+		first = fpgo.CorNewGenerics[int](func() {
+			defer close(firstDone)
+			defer func() { recover() }()
+			first.YieldFrom(target, 1) // queued, never served: answered (zero) by the target's completion
+		})
+		first.Start()
+		time.Sleep(3 * time.Millisecond) // the request is in the target's mailbox
+		var once sync.Once
+		return &c15Inst{objs: []interface{}{first}, op: func() {
+			done := make(chan struct{})
+			pmsg := ""
+			var caller *fpgo.CorDef[int]
+			caller = fpgo.CorNewGenerics[int](func() {
+				defer close(done)
+				defer func() {
+					if p := recover(); p != nil {
+						pmsg = fmt.Sprint(p)
+					}
+				}()
+				caller.YieldFrom(target, 2)
+			})
+			caller.Start()
+			<-done
+			if pmsg != "" {
+				panic(pmsg)
+			}
+		}, closeFn: func() {
+			once.Do(func() { close(finish) })
+			for i := 0; i < 20000 && !target.IsDone(); i++ {
+				time.Sleep(50 * time.Microsecond)
+			}
+			select {
+			case <-firstDone:
+			case <-time.After(2 * time.Second):
+				select {} // the stranded requester was never answered: reported as "Close did not return"
+			}
+		}, after: func() []string {
+			if target.IsDone() {
+				return []string{"done"}
+			}
+			return []string{"open"}
+		}}
+	})
 	return n, unreached
 }
 
